@@ -469,7 +469,7 @@ fn gen_vsign(ctx: &mut Ctx) {
         }
     }
     // several pages in one transfer, including pages that share an id: every complete page is stored, in arrival order
-    for (ti, idsets) in [(2usize, vec![vec![0u8, 0, 0], vec![7, 3, 7], vec![1, 1]]), (5, vec![vec![5, 6, 5, 6], vec![9, 9]]), (3, vec![vec![2, 2, 3]])] {
+    for (ti, idsets) in [(2usize, vec![vec![0u8, 0, 0], vec![7, 3, 7], vec![1, 1], vec![254, 255, 0]]), (5, vec![vec![5, 6, 5, 6], vec![9, 9], vec![255, 255], vec![255, 0, 1]]), (3, vec![vec![2, 2, 3], vec![4, 8, 4]])] {
         for ids in idsets {
             for style in ["M", "A"] {
                 let (w, h) = SIGN_SIZES[ti];
@@ -494,6 +494,18 @@ fn gen_vsign(ctx: &mut Ctx) {
                 ctx.monitor(stored == ids.len(), "C13-state-machine", &line[..line.len().min(400)], &format!("{} pages sent, {} stored", ids.len(), stored));
             }
         }
+    }
+    // more than 65535 bytes buffered since the last offset-0 chunk (large chunks at non-zero offsets, no count message)
+    {
+        let mut msgs = vec!["RO.3.RCF".to_string(), format!("SD.0.{}", config_blocks()[0].0), "DC.1".to_string(), "RO.3.RPX".to_string(), format!("SD.0.{}", chunk(16, 0))];
+        for i in 0..262 {
+            msgs.push(format!("SD.{}.{}", 16 + (i % 7) * 16, chunk(255, i)));
+        }
+        msgs.push("DC.263".to_string());
+        msgs.push("QS.3".to_string());
+        let line = format!("VSL 3 M {}", msgs.join(" "));
+        let res = ctx.case(line.clone(), true, "many-buffered-bytes");
+        ctx.monitor(!res.contains("PANIC"), "C12-no-panic", "VSL 3 M <262 chunks of 255 bytes at non-zero offsets>", &res);
     }
     // the 16-bit chunk counter: a transfer longer than 65535 chunks
     if thorough {
@@ -676,7 +688,8 @@ fn gen_c14(ctx: &mut Ctx) {
 // C10 / C11: exhaustive reply-alphabet DFS on the implementation
 
 fn reply_alphabet(own: u16, foreign: u16) -> Vec<String> {
-    let mut v = vec!["N".to_string(), "E".to_string()];
+    // every kind of bus failure is a leaf of the tree (the call must end there with the bus error)
+    let mut v = vec!["N".to_string(), "E".to_string(), "ET".to_string(), "EI".to_string(), "EW".to_string(), "EF".to_string(), "EG".to_string()];
     for a in [own, foreign] {
         for (_, st) in STATES.iter() {
             v.push(format!("RS.{}.{}", a, st));
@@ -711,7 +724,7 @@ fn c11_monitor(op: &str, own: u16, trace: &[Message<'static>], script: &[Reply],
     let consumed = trace.len().min(script.len());
     // fail-stop: a bus error in the consumed prefix means the call ended there with the bus error
     for (i, r) in script[..consumed].iter().enumerate() {
-        if matches!(r, Reply::BusErr) {
+        if matches!(r, Reply::BusErr(_)) {
             if i + 1 != trace.len() {
                 return Some(format!("{} messages were sent after the bus error at reply {}", trace.len() - i - 1, i));
             }
@@ -720,7 +733,7 @@ fn c11_monitor(op: &str, own: u16, trace: &[Message<'static>], script: &[Reply],
             }
         }
     }
-    if outcome == "BUS" && !matches!(script.get(trace.len().wrapping_sub(1)), Some(Reply::BusErr)) {
+    if outcome == "BUS" && !matches!(script.get(trace.len().wrapping_sub(1)), Some(Reply::BusErr(_))) {
         return Some("outcome is a bus error but the last consumed reply is not one".to_string());
     }
     // fail-stop on a reply the protocol does not allow at that point.  Two points are unambiguous whatever the
@@ -730,7 +743,7 @@ fn c11_monitor(op: &str, own: u16, trace: &[Message<'static>], script: &[Reply],
     for (i, r) in script[..consumed].iter().enumerate() {
         let rep = match r {
             Reply::Rep(x) => x,
-            Reply::BusErr => continue,
+            Reply::BusErr(_) => continue,
         };
         let allowed = match &trace[i] {
             Message::SendData(..) | Message::DataChunksSent(_) | Message::PixelsComplete(_) | Message::Goodbye(_) => rep.is_none(),
@@ -766,6 +779,9 @@ fn c11_monitor(op: &str, own: u16, trace: &[Message<'static>], script: &[Reply],
             if !prev_is_query || !prev_reply_failed {
                 return Some(format!("retry at message {} not preceded by the sign's own failure report", i));
             }
+        }
+        if outcome.starts_with("DONE") && reqs.is_empty() && kind != "CIN" {
+            return Some("success reported without any transfer attempt".to_string());
         }
         if outcome.starts_with("DONE") && !reqs.is_empty() {
             // the query concluding the final attempt was answered by own 'received'
@@ -834,6 +850,140 @@ fn small_page(id: u8, w: u32, h: u32, rng: &mut Rng) -> String {
     let mut b = rng.bytes(total);
     b[0] = id;
     format!("{}.{}.{}", w, h, hex_of_bytes(&b))
+}
+
+/// Several operations on ONE Sign object over one scripted bus (CTS): nothing an earlier call saw -- a failure, a retry
+/// budget that ran out, a flip style, the pages sent, chunks counted before an abort -- may influence a later call.
+/// Scripts are cooperative with faults injected at random steps; every operation's segment is checked with the C09 and
+/// C11 monitors and the whole conversation is compared with the (stateless) model.
+pub fn gen_cts(ctx: &mut Ctx, n: usize, stream: u64) {
+    let mut rng = Rng::new(ctx.seed, stream);
+    for k in 0..n {
+        let own = *rng.pick(&[3u16, 0, 0x7F, 0xFFFF, 0x100]);
+        let t = rng.below(11) as usize;
+        let (w, h) = SIGN_SIZES[t];
+        let big = *rng.pick(&[(8u32, 8u32), (20, 8), (w, h)]);
+        let p1 = small_page(rng.byte(), big.0, big.1, &mut rng);
+        let p2 = small_page(rng.byte(), big.0, big.1, &mut rng);
+        let snd1 = format!("SND.{}.{}", own, p1);
+        let snd2 = format!("SND.{}.{}+{}", own, p1, p2);
+        let cfg = format!("CFG.{}.{}", own, t);
+        let cin = format!("CIN.{}.{}", own, t);
+        let shw = format!("SHW.{}.400", own);
+        let lnx = format!("LNX.{}.400", own);
+        let bye = format!("BYE.{}", own);
+        // shaped sequences first (each family is what one kind of carried-over state would need), then random ones
+        let ops: Vec<String> = match k % 8 {
+            0 => vec![cfg.clone(), cfg.clone(), snd1.clone()],
+            1 => vec![snd1.clone(), shw.clone(), lnx.clone(), snd1.clone(), shw.clone()],
+            2 => vec![snd2.clone(), cfg.clone(), snd2.clone()],
+            3 => vec![snd1.clone(), snd1.clone(), snd2.clone(), lnx.clone()],
+            4 => vec![cin.clone(), snd2.clone(), cin.clone(), snd1.clone()],
+            5 => vec![snd2.clone(), bye.clone(), snd2.clone(), shw.clone()],
+            _ => (0..2 + rng.below(3)).map(|_| rng.pick(&[&cfg, &cin, &snd1, &snd2, &shw, &lnx, &bye]).to_string()).collect(),
+        };
+        // how the far side behaves: which transfer attempts report failure, where a fault is injected
+        let fail_pattern: Vec<u64> = (0..ops.len()).map(|i| if k % 8 == 0 && i == 0 { 3 } else { rng.below(4) }).collect();
+        let fault_at: i64 = if rng.chance(1, 2) { rng.below(40) as i64 } else { -1 };
+        let fault: String = rng.pick(&["E", "ET", "EI", "EF", "N", &format!("RS.{}.PFL", own), &format!("AO.{}.SRS", own ^ 1), &format!("RS.{}.SHP", own ^ 1)]).to_string();
+        let auto = rng.chance(1, 2);
+        let mut r2 = Rng::new(rng.next(), 4242);
+        let fp = fail_pattern.clone();
+        let mut attempt_failures = 0u64;
+        let mut op_index = 0usize;
+        let mut steps = 0i64;
+        let mut polls = 0u32;
+        let flt = fault.clone();
+        let decide = move |trace: &[Message<'static>]| -> Option<String> {
+            steps += 1;
+            if steps - 1 == fault_at {
+                return Some(flt.clone());
+            }
+            let pending = trace.last().unwrap();
+            Some(match pending {
+                Message::Hello(_) => {
+                    let prev_finish = trace.len() >= 2 && matches!(trace[trace.len() - 2], Message::RequestOperation(_, Operation::FinishReset));
+                    let prev_start = trace.len() >= 2 && matches!(trace[trace.len() - 2], Message::RequestOperation(_, Operation::StartReset));
+                    if prev_finish {
+                        format!("RS.{}.UNC", own)
+                    } else if prev_start {
+                        format!("RS.{}.RTR", own)
+                    } else {
+                        format!("RS.{}.{}", own, r2.pick(&["UNC", "RTR", "PLD", "CRX", "SHP", "PFL"]))
+                    }
+                }
+                Message::QueryState(_) => {
+                    let prev = if trace.len() >= 2 { Some(&trace[trace.len() - 2]) } else { None };
+                    match prev {
+                        Some(Message::DataChunksSent(_)) => {
+                            let want = *fp.get(op_index).unwrap_or(&0);
+                            let is_cfg = trace.iter().rev().find_map(|m| match m {
+                                Message::RequestOperation(_, Operation::ReceiveConfig) => Some(true),
+                                Message::RequestOperation(_, Operation::ReceivePixels) => Some(false),
+                                _ => None,
+                            }).unwrap_or(false);
+                            if attempt_failures < want {
+                                attempt_failures += 1;
+                                format!("RS.{}.{}", own, if is_cfg { "CFL" } else { "PFL" })
+                            } else {
+                                attempt_failures = 0;
+                                op_index += 1;
+                                format!("RS.{}.{}", own, if is_cfg { "CRX" } else { "PRX" })
+                            }
+                        }
+                        Some(Message::PixelsComplete(_)) => format!("RS.{}.{}", own, if auto { "SHP" } else { "PLD" }),
+                        _ => {
+                            // page flip polling: a few in-progress reports, then settle
+                            polls += 1;
+                            if auto {
+                                format!("RS.{}.SHP", own)
+                            } else {
+                                format!("RS.{}.{}", own, ["PLD", "PSP", "PSH", "PLP"][(polls % 4) as usize])
+                            }
+                        }
+                    }
+                }
+                Message::RequestOperation(_, o) => format!("AO.{}.{}", own, str_op(*o)),
+                _ => "N".to_string(),
+            })
+        };
+        let bus = Rc::new(RefCell::new(CoopBus { trace: vec![], script: vec![], decide: Box::new(decide), limit: 2000 }));
+        {
+            let dynbus: Rc<RefCell<dyn SignBus>> = bus.clone();
+            let sign = flipdot::Sign::new(dynbus, Address(own), SIGN_TYPES[t]);
+            for op in &ops {
+                let _ = crate::eval::run_cop_on(&sign, op);
+            }
+        }
+        let script = bus.borrow().script.clone();
+        let line = format!("CTS {} {} {} {}", own, t, ops.join(","), script.join(" "));
+        let line = line.trim_end().to_string();
+        let res = ctx.case(line.clone(), true, &format!("same-sign-{}", k % 8));
+        // per-operation monitors on the implementation's own segments
+        let mut consumed = 0usize;
+        let short = if line.len() > 1500 { format!("{}...", &line[..1500]) } else { line.clone() };
+        for (i, seg) in res.split(" ;; ").enumerate() {
+            let (tr, outcome) = match seg.split_once(" => ") {
+                Some(x) => x,
+                None => ("", seg.trim_start_matches("=> ")),
+            };
+            let trace: Vec<Message<'static>> = tr.split(' ').filter(|s| !s.is_empty()).map(msg_of_str).collect();
+            let sc: Vec<Reply> = script.iter().skip(consumed).map(|s| reply_of_str(s)).collect();
+            let op = &ops[i.min(ops.len() - 1)];
+            let v = c11_monitor(op, own, &trace, &sc, outcome);
+            ctx.monitor(v.is_none(), "C11-invariants", &short, &format!("operation {} ({}): {}", i, &op[..3], v.as_deref().unwrap_or("")));
+            if op.starts_with("SND") || op.starts_with("CFG") {
+                let items: Vec<Vec<u8>> = if op.starts_with("CFG") {
+                    vec![SIGN_TYPES[t].to_bytes().to_vec()]
+                } else {
+                    op.splitn(3, '.').nth(2).unwrap().split('+').map(|p| bytes_of_hex(p.split('.').nth(2).unwrap())).collect()
+                };
+                let v9 = c09_monitor(own, recv_op(op.starts_with("CFG")), &items, &trace, &sc);
+                ctx.monitor(v9.is_none(), "C09-transfer-shape", &short, &format!("operation {} ({}): {}", i, &op[..3], v9.as_deref().unwrap_or("")));
+            }
+            consumed += trace.len();
+        }
+    }
 }
 
 fn gen_c10(ctx: &mut Ctx) {
@@ -910,6 +1060,31 @@ fn gen_c10(ctx: &mut Ctx) {
         ctx.monitor(v.is_none(), "C11-invariants", &line, v.as_deref().unwrap_or(""));
         ctx.monitor(!after_err, "C11-fail-stop", &line, "");
     }
+    // long polling: many in-progress reports in one show / load-next call (before and after the request), then settle
+    for (k, n) in [49usize, 50, 51, 52, 100, 200, 301].into_iter().enumerate() {
+        for op in ["SHW", "LNX"] {
+            let own = 3u16;
+            let (busy, trigger, target, req) = if op == "SHW" { ("PSP", "PLD", "PSH", "SLP") } else { ("PLP", "PSH", "PLD", "LNP") };
+            let mut script: Vec<String> = vec![];
+            let before = if k % 2 == 0 { n / 3 } else { 0 };
+            for i in 0..before {
+                script.push(format!("RS.{}.{}", own, if i % 2 == 0 { "PLP" } else { "PSP" }));
+            }
+            script.push(format!("RS.{}.{}", own, trigger));
+            script.push(format!("AO.{}.{}", own, req));
+            for _ in before..n {
+                script.push(format!("RS.{}.{}", own, busy));
+            }
+            script.push(format!("RS.{}.{}", own, target));
+            let opstr = format!("{}.{}.{}", op, own, n + 50);
+            let (trace, outcome, after_err) = run_ct(&opstr, &script);
+            let line = format!("CT {} {}", opstr, script.join(" "));
+            ctx.case(line.clone(), true, "long-polling");
+            let short = format!("CT {} <{} in-progress reports>", opstr, n);
+            ctx.monitor(outcome == "DONE" && trace.len() == script.len() && !after_err, "C11-invariants", &short, &format!("outcome {} after {} messages", outcome, trace.len()));
+        }
+    }
+    gen_cts(ctx, if thorough { 6000 } else { 600 }, 1011);
 }
 
 // ---------------------------------------------------------------------------------------------
@@ -1032,7 +1207,7 @@ impl SignBus for CoopBus {
             Some(letter) => {
                 self.script.push(letter.clone());
                 match reply_of_str(&letter) {
-                    Reply::BusErr => Err(Box::new(CoopEnd)),
+                    Reply::BusErr(_) => Err(Box::new(CoopEnd)),
                     Reply::Rep(r) => Ok(r.map(|m| own_msg(&m))),
                 }
             }
@@ -1074,6 +1249,12 @@ fn gen_c09(ctx: &mut Ctx) {
             let p = if k == 1 { small_page(9, 65532 / 2, 16, &mut rng) } else { small_page(9, 65532, 8, &mut rng) };
             items = vec![bytes_of_hex(p.split('.').nth(2).unwrap())];
             pages = vec![p];
+        }
+        if k == 6 || k == 10 || (thorough && k % 50 == 7) {
+            // long page lists: 257, 300 (one-chunk pages) -- every page is sent, the count covers them all
+            let n = if k == 6 { 257 } else if k == 10 { 300 } else { 256 + rng.below(400) as usize };
+            pages = (0..n).map(|j| small_page((j % 256) as u8, 8, 8, &mut rng)).collect();
+            items = pages.iter().map(|p| bytes_of_hex(p.split('.').nth(2).unwrap())).collect();
         }
         if k == 2 {
             // one chunk short of the limit, followed by a second item (offset restart after a long item)
@@ -1216,6 +1397,8 @@ fn gen_c09(ctx: &mut Ctx) {
             }
         }
     }
+    // operations sharing one Sign object: the chunk count of a transfer counts that transfer's chunks only
+    gen_cts(ctx, if thorough { 3000 } else { 300 }, 909);
 }
 
 // ---------------------------------------------------------------------------------------------
@@ -1290,7 +1473,7 @@ fn gen_c08(ctx: &mut Ctx) {
                     } else if reconfigured && !cfg_tok.starts_with(&format!("DONE/CRX.{}.0.", t)) {
                         verdict = Some(format!("after configure the sign is {}", cfg_tok));
                     }
-                    let hp = hash_pages(&pages.iter().map(|p| page_of_str(p)).collect::<Vec<_>>());
+                    let hp = hash_page_literals(&pages);
                     let want_snd = format!("DONE.{}/{}.{}.{}.{}", if manual { "M" } else { "A" }, if manual { "PLD" } else { "SHP" }, t, npages, hp);
                     if verdict.is_none() && toks[1] != want_snd {
                         verdict = Some(format!("send_pages gave {} wanted {}", toks[1], want_snd));
@@ -1309,6 +1492,35 @@ fn gen_c08(ctx: &mut Ctx) {
         }
     }
     ctx.notes.insert("prior-states".into(), prior_count.to_string());
+    // page flipping across repeated sends: send L1 pages, flip part of the way through them, send L2 pages (fewer, the
+    // same number, more, none), keep flipping -- on manual and automatic signs
+    for k in 0..(if thorough { 300 } else { 48 }) {
+        let own = 3u16;
+        let t = [5usize, 3, 2, 8][k % 4];
+        let (w, h) = SIGN_SIZES[t];
+        let l1 = 1 + k % 4;
+        let flips = k / 4 % 5;
+        let l2 = (k / 20) % 4;
+        let style = if k % 3 == 0 { "A" } else { "M" };
+        let pages1: Vec<String> = (0..l1).map(|j| small_page(j as u8, w, h, &mut rng)).collect();
+        let pages2: Vec<String> = (0..l2).map(|j| small_page(50 + j as u8, w, h, &mut rng)).collect();
+        let mut ops = vec![format!("CFG.{}.{}", own, t), format!("SND.{}.{}", own, pages1.join("+"))];
+        for _ in 0..flips {
+            ops.push(format!("SHW.{}.60", own));
+            ops.push(format!("LNX.{}.60", own));
+        }
+        ops.push(format!("SND.{}.{}", own, if pages2.is_empty() { "-".to_string() } else { pages2.join("+") }));
+        ops.push(format!("SHW.{}.60", own));
+        ops.push(format!("LNX.{}.60", own));
+        ops.push(format!("SHW.{}.60", own));
+        let line = format!("CL 1 {} {} | {}", own, style, ops.join(" "));
+        let res = ctx.case(line.clone(), true, "flip-across-resend");
+        let toks: Vec<&str> = res.split(" # ").next().unwrap_or("").split(' ').filter(|s| !s.is_empty()).collect();
+        let all_done = toks.len() == ops.len() && toks.iter().all(|x| x.starts_with("DONE"));
+        let hp2 = hash_page_literals(&pages2);
+        let want_last = format!("DONE/{}.{}.{}.{}", if style == "M" { "PSH" } else { "SHP" }, t, l2, hp2);
+        ctx.monitor(all_done && toks.last() == Some(&want_last.as_str()), "C08-closed-loop", &line[..line.len().min(600)], &format!("results {:?}", toks.iter().map(|x| &x[..x.len().min(24)]).collect::<Vec<_>>()));
+    }
     // multi-sign buses: the configured sign is not the first one, others are mid-transfer
     for k in 0..(if thorough { 200 } else { 30 }) {
         let own = 7u16;
